@@ -402,7 +402,9 @@ Inductive frec :=
 (* which way decode() goes for this packet *)
 Inductive fdec :=
 | FDrop                          (* seqid >= paws, tuning in progress, or duplicate: untouched *)
-| FRetune                        (* autotune changes the parameters: every parked packet is Put *)
+| FRetune                        (* autotune applies new parameters - whether or not the group size changes:
+                                    every parked packet is Put AND `dec.shardSet = make(map...)` drops every
+                                    reference to them (f_sets := []), so nothing recycled stays held *)
 | FAccept (sid : Z) (r : frec) (old : list Z).   (* parked in group sid; `old` = groups too old *)
 
 (* decode(): returns the new state, the `recovered` buffers handed to the caller, the events *)
